@@ -8,6 +8,8 @@ feature sets and Coq decides (a) that the translated program (Gen_Engines) decla
 Factory pipelines: for sampled problems, every ordered subset of <= 2 (quick; thorough: <= 3) compilation kinds is requested from
 the real Factory and compared with the model's pipeline; built pipelines are run stage by stage on the problem and Coq decides
 actual_i <= declared_i and that every stage supports the problem it receives.
+The "condition shape" family (harness/c09_shapes.py: one condition of a given shape at a given position, nothing else conditional) is
+run on the compilers that build new conditions out of the input's conditions (quick) / on every compiler (thorough).
 """
 import itertools
 import signal
@@ -16,6 +18,7 @@ import time
 from harness.core import gn, gnat, glist, gopt, gpair, gstr
 from harness.props.c33 import run_translator
 from harness.props import c32
+from harness import c09_shapes
 
 META = {
     "level": "proof",
@@ -321,6 +324,11 @@ def run(ctx):
     gen = generated_problems()
     gen_errors = {k: repr(v) for k, v in gen.items() if k.startswith("__")}
     problems.update({k: v for k, v in gen.items() if not k.startswith("__")})
+    # the condition-shape family: judged like every other problem; in the quick tier only by the compilers that rewrite conditions
+    shapes = c09_shapes.shape_problems()
+    gen_errors.update({k: repr(v) for k, v in shapes.items() if k.startswith("__")})
+    shapes = {k: v for k, v in shapes.items() if not k.startswith("__")}
+    problems.update(shapes)
     env = up.environment.get_environment()
     factory = up.environment.Environment().factory
     registered = [n for n in I.builtin if n in factory.engines]
@@ -345,7 +353,8 @@ def run(ctx):
     for n in compilers:
         cls = classes[n]
         cks = [i for i, ck in enumerate(I.CK) if cls.supports_compilation(ck)]
-        names = [k for k, p in problems.items() if _supports(cls, p)]
+        names = [k for k, p in problems.items() if _supports(cls, p)
+                 and not (ctx.quick and k in shapes and n not in c09_shapes.SHAPE_COMPILERS)]
         done = 0
         for k in names:
             p = problems[k]
@@ -389,7 +398,16 @@ def run(ctx):
                     stats["branches_not_reached"].append("%s: has_%s() never %s on a validated input" % (n, h, want))
         stats["branch_coverage"][n] = cov
     phase["compile_runs"] = round(time.time() - t0, 1); t0 = time.time()
-    cbad = ctx.coq_failing(ccases, "cc_ok ENG", imports=IMPORTS, preamble=pre_names, shard=max(1, (len(ccases) + 1) // 2))
+    # many runs (above all of the shape family) have the same (compiler, compilation kind, input, compiled, declared) kinds, i.e. are
+    # the same Gallina term: Coq decides each distinct term once
+    uniq = {}
+    uidx = [uniq.setdefault(c, len(uniq)) for c in ccases]
+    ubad = set(ctx.coq_failing(list(uniq), "cc_ok ENG", imports=IMPORTS, preamble=pre_names, shard=max(1, (len(uniq) + 1) // 2)))
+    cbad = [i for i in range(len(ccases)) if uidx[i] in ubad]
+    stats["distinct_coq_cases"] = len(uniq)
+    stats["shape_family"] = {"problems": len(shapes), "runs": sum(1 for r in craw if r["problem"] in shapes),
+                             "compilers": sorted(set(r["compiler"] for r in craw if r["problem"] in shapes)),
+                             "runs_with_undeclared_feature": sum(1 for r in craw if r["problem"] in shapes and r["undeclared"])}
     phase["coq_compilers"] = round(time.time() - t0, 1); t0 = time.time()
     groups = {}
     for i in cbad:
@@ -422,7 +440,7 @@ def run(ctx):
     offered = sorted(set(i for n in compilers for i, ck in enumerate(I.CK) if classes[n].supports_compilation(ck)))
     maxlen = 2 if ctx.quick else 3
     seqs = [list(s) for L in range(1, maxlen + 1) for s in itertools.permutations(offered, L)]
-    pnames = [k for k, p in problems.items() if type(p).__name__ == "Problem"]
+    pnames = [k for k, p in problems.items() if type(p).__name__ == "Problem" and k not in shapes]
     sample = sorted(rng.sample(pnames, 4 if ctx.quick else 10))
     n_run = 60 if ctx.quick else 400
     pcases, praw = [], []
@@ -550,7 +568,8 @@ def run(ctx):
         "evaluations": len(ccases) + len(pcases),
         "distinct_nontrivial": len(distinct),
         "rule": "distinct = distinct (compiler, compilation kind, non-empty input kind) of a completed compiler run, plus distinct (compilation-kind "
-                "sequence, problem kind) factory pipeline requests",
+                "sequence, problem kind) factory pipeline requests; evaluations counts every compiler run, identical Gallina cases are "
+                "decided once (distribution.compilers.distinct_coq_cases)",
         "samples": [craw[0] if craw else None, {k: v for k, v in (praw[0] if praw else {}).items() if k != "pipe"}],
         "distribution": {"compilers": stats, "pipelines": pstats},
         "undeclared_feature_groups": sorted("%s:%s" % g for g in groups),
